@@ -171,8 +171,9 @@ CLAIMED["C06"] = dict(
     "(entries_are_blocks_after_apply, Lemmas/IREntries.lean); code inserted into a block of function F belongs "
     "to F when insert() returns (inserted_code_belongs_to_the_function); the premises (fresh patch block ids, cache mirrors "
     "table, entries are blocks) are evaluated on the recorded states." + EMOD_TIE +
-    " Partial: entry promotion on deletion, and that data never belongs to a function, are decided by oracle and "
-    "correspondence.",
+    " The function-table step of remove_block promotes the next block to an entry only inside the removed block's "
+    "function (entry_promotion_only_within_the_function). Partial: that data never belongs to a function, and "
+    "(with retarget_to_proxy) that no block inherits the entry, are decided by oracle and correspondence.",
     technique=EMOD_TECH,
     design="DESIGN.md#c06",
 )
